@@ -272,6 +272,54 @@ func TestC15(t *testing.T) {
 				}
 			}
 		}
+		// look-alike redefinitions: the definition of entry (m, f) followed,
+		// on the same local type, by the byte-identical field list for up to
+		// three other messages in which field number f has another base
+		// type. Whether such a definition is accepted is decided for the
+		// message it names, each time: the second one must be rejected or
+		// decoded, never reach a reflection access that fails.
+		byNum := map[byte][]uint16{}
+		for _, m := range prof.MsgNums() {
+			for _, n := range prof.FieldNums(m) {
+				byNum[n] = append(byNum[n], m)
+			}
+		}
+		for _, e := range entries {
+			bt, ok := fitmodel.Base(e.Base)
+			if !ok {
+				continue
+			}
+			size := bt.Size * int(e.Length)
+			if bt.String {
+				size = int(e.Length)
+			}
+			if size > 255 || size == 0 {
+				continue
+			}
+			others := 0
+			for _, m2 := range byNum[e.Num] {
+				fi2 := prof.Table().Msgs[m2].Fields[e.Num]
+				if m2 == uint16(e.Mesg) || fi2 == nil || fi2.Base == e.Base {
+					continue
+				}
+				others++
+				if others > 3 {
+					break
+				}
+				fd := fitmodel.FieldDef{Num: e.Num, Size: byte(size), Base: e.Base}
+				payload := bytes.Repeat([]byte{0x01}, size)
+				s := &fitmodel.Stream{HeaderSize: 12, Proto: 0x20, Recs: []fitmodel.Rec{
+					{IsDef: true, Global: 0, Fields: []fitmodel.FieldDef{{Num: 0, Size: 1, Base: 0}}}, {Raw: []byte{4}},
+					{IsDef: true, Local: 1, Global: uint16(e.Mesg), Fields: []fitmodel.FieldDef{fd}}, {Local: 1, Raw: payload},
+					{IsDef: true, Local: 1, Global: m2, Fields: []fitmodel.FieldDef{fd}}, {Local: 1, Raw: payload},
+				}}
+				dyn++
+				if p := oracle.Catch(func() { fit.Decode(bytes.NewReader(s.Bytes())) }); p != nil {
+					fail(int(m2), int(e.Num), "decode", fmt.Sprintf("a definition of field %d as base %#02x size %d for message %d, written right after the same definition for message %d on the same local type, panics: %v", e.Num, e.Base, size, m2, e.Mesg, p))
+				}
+			}
+		}
+
 		// the other profile-driven reflection access of the decoder: a
 		// compressed-timestamp header stores the computed time in the
 		// message's timestamp field. Every known message, with and without a
